@@ -61,6 +61,11 @@ func TestC04_Homomorphism(t *testing.T) {
 		for i := range xs {
 			sks[i] = decodeSK(g, xs[i])
 			pks[i] = sks[i].PublicKey()
+			if g.Chance("pkOtherRoute", 1, 4) {
+				// the same point through another constructor, in particular the projective result of RemoveBLSPublicKeys:
+				// aggregation and removal must accept every key object the package hands out
+				pks[i] = pkVariant(g, fmt.Sprintf("pkVia%d", i), blsKey{pk: pks[i], x: xs[i]})
+			}
 			s, err := sks[i].Sign(msg, h)
 			if err != nil {
 				g.Fatalf("Sign: %v", err)
@@ -349,5 +354,70 @@ func TestC04_Errors(t *testing.T) {
 		}
 		g.Class("fault:" + name)
 		g.NonTrivial(fmt.Sprintf("%s/%d/%d", name, n, at))
+	})
+}
+
+
+// TestC04_LargeLists: the aggregation functions on lists whose length crosses the usual internal batch sizes (64, 128,
+// 256): the results still equal the oracle's sums (one scalar sum, one multiplication per group).
+func TestC04_LargeLists(t *testing.T) {
+	gen.Run(t, "C04", func(g *gen.G) {
+		swapped := mustSwapped(g)
+		n := []int{63, 64, 65, 127, 128, 129, 130, 255, 256, 257, 300}[g.Pick("n", 11)]
+		msg := g.Bytes("msg", 0, 40)
+		h := crypto.NewExpandMsgXOFKMAC128("c04-large")
+		H := hashToG1(g, msg, h)
+		base, _ := drawScalar(g, "base")
+		sum := new(big.Int)
+		sks := make([]crypto.PrivateKey, n)
+		pks := make([]crypto.PublicKey, n)
+		sigs := make([]crypto.Signature, n)
+		idAt := -1
+		if g.Bool("identityInside") {
+			idAt = g.Pick("identityAt", n)
+		}
+		for i := 0; i < n; i++ {
+			x := new(big.Int).Add(base, big.NewInt(int64(i*7919+1)))
+			x.Mod(x, blsR)
+			if x.Sign() == 0 {
+				x.SetInt64(3)
+			}
+			sks[i] = decodeSK(g, x)
+			pks[i] = sks[i].PublicKey()
+			sigs[i], _ = sks[i].Sign(msg, h)
+			sum.Add(sum, x)
+		}
+		sum.Mod(sum, blsR)
+		list := sigs
+		if idAt >= 0 { // an identity signature inside a long list changes nothing
+			list = append(append(append([]crypto.Signature{}, sigs[:idAt]...), bls381.G1Compress(bls381.G1Infinity())), sigs[idAt:]...)
+		}
+		agg, err := crypto.AggregateBLSSignatures(list)
+		if want := bls381.G1Compress(H.Mul(sum)); err != nil || !bytes.Equal(agg, want) {
+			g.Fatalf("AggregateBLSSignatures of %d signatures = %x (%v), oracle (Σsk)·H(m) = %x", len(list), []byte(agg), err, want)
+		}
+		aggPk, err := crypto.AggregateBLSPublicKeys(pks)
+		if want := bls381.G2Compress(bls381.G2Generator().Mul(sum), swapped); err != nil || !bytes.Equal(aggPk.Encode(), want) {
+			g.Fatalf("AggregateBLSPublicKeys of %d keys = %x (%v), oracle (Σsk)·g2 = %x", n, aggPk.Encode(), err, want)
+		}
+		aggSk, err := crypto.AggregateBLSPrivateKeys(sks)
+		if err != nil || !bytes.Equal(aggSk.Encode(), scalarBytes(sum)) {
+			g.Fatalf("AggregateBLSPrivateKeys of %d keys = %x (%v), Σ mod r = %x", n, aggSk.Encode(), err, scalarBytes(sum))
+		}
+		if ok, err := crypto.VerifyBLSSignatureOneMessage(pks, agg, msg, h); sum.Sign() != 0 && (!ok || err != nil) {
+			g.Fatalf("VerifyBLSSignatureOneMessage over %d keys = (%v, %v)", n, ok, err)
+		}
+		cut := g.Int("removeFrom", 1, n-1)
+		rem, err := crypto.RemoveBLSPublicKeys(aggPk, pks[cut:])
+		partial := new(big.Int)
+		for i := 0; i < cut; i++ {
+			partial.Add(partial, new(big.Int).SetBytes(sks[i].Encode()))
+		}
+		partial.Mod(partial, blsR)
+		if want := bls381.G2Compress(bls381.G2Generator().Mul(partial), swapped); err != nil || !bytes.Equal(rem.Encode(), want) {
+			g.Fatalf("RemoveBLSPublicKeys(aggregate of %d keys, the last %d) = %x (%v), oracle %x", n, n-cut, rem.Encode(), err, want)
+		}
+		g.Class(fmt.Sprintf("largeList:%d", n))
+		g.NonTrivial()
 	})
 }
